@@ -1,4 +1,4 @@
 #!/bin/bash
 # runs every claimed check (quick tier, short solver timeout) and prints one line each
 cd /verif
-for p in $(jq -r '.checks[].property_id' MANIFEST.json) "$@"; do bin/lvc check -p $p -t ${T:-5} | grep -v "^VIOL\|^KNOWN" | tail -1; done
+for p in $(jq -r '.checks[].property_id' MANIFEST.json) "$@"; do bin/lvc check -p $p ${T:+-t $T} | grep -v "^VIOL\|^KNOWN" | tail -1; done
